@@ -177,6 +177,8 @@ def run(ctx):
         except Unknown as u:
             res.undecide(f"unlink post-state {classes},{poss}: {u}")
     res.rule("UNLINK-EMPTY", nun)
+    from rules import structural
+    structural.filter_mpt(ctx, FN)
     common.vacuity(res, "TABLE", 900)
     common.vacuity(res, "RELATION", 100)
     res.explanation = ("All 540 abstract input classes of find_links() were evaluated on the current source and compared with the specified table; "
